@@ -18,6 +18,8 @@
   * `collapsing_quantile_retained_regenerated`: … and `GetValueAtQuantile(q)` of the regenerated sketch answers what
     the un-collapsed spec sketch answers (`QRel`: the value with a nil error, or NaN with the documented error), for
     every `q` whose selected bin is at or above the edge `max − N + 1` of its side.
+  * `high_adds_eq_model`, `collapsing_sketch_contents_regenerated_high`: the same for the regenerated
+    `CollapsingHighestDenseStore` (`specHigh N`).
   * `dense_adds_then_quantile_eq_model`, `dense_quantile_accuracy_regenerated`: C01 for the regenerated sketch over
     the regenerated plain `DenseStore`.
   Hypotheses: exactly those of the `Props/Lift` theorems.  The mapping stays the model's oracle `MapEnv`.
@@ -144,5 +146,56 @@ theorem dense_quantile_accuracy_regenerated
   obtain ⟨h1, h2⟩ := dense_adds_then_quantile_eq_model env mn C.minEq (Rat.le_of_lt C.minPos) xs s hs
     (.fin q) (.fin a) ha
   exact ⟨h1, a, h2, hacc⟩
+
+/-! ### the highest-collapsing stores -/
+
+open DDS.GenHighSketch in
+/-- the regenerated sketch on fresh regenerated highest-collapsing stores with limit `N` -/
+abbrev newHigh (env : MapEnv) (N : Nat) : DDSketch MapEnv (GHS N) :=
+  NewDDSketch env (⟨NewCollapsingHighestDenseStore (N : Int)⟩ : GHS N) ⟨NewCollapsingHighestDenseStore (N : Int)⟩
+
+open DDS.GenHighSketch in
+/-- unit adds on the regenerated sketch over the regenerated highest-collapsing stores end related to the model
+    sketch -/
+theorem high_adds_eq_model (N : Nat) (env : MapEnv) (mn : Rat) (hmin : env.minIndexable = .fin mn) (hmn : 0 ≤ mn)
+    (xs : List Rat) (s : Sketch)
+    (hs : Sketch.addAll env (Sketch.new (some env.id) (.high N)) (xs.map (fun x => (x, 1))) = some s) :
+    let g := runAdds (newHigh env N) (unitAdds xs)
+    g.2 = List.replicate xs.length GoErr.nil ∧ SkSimG (highStoreSim N) g.1 (toGen env s) := by
+  intro g
+  obtain ⟨he, hsim⟩ := high_runAdds N env (unitAdds xs)
+  have hm := model_runAdds env mn hmin hmn xs (Sketch.new (some env.id) (.high N)) s hs
+  rw [← GenSketch.NewDDSketch_eq env (some env.id) (.high N)] at hm
+  refine ⟨?_, ?_⟩
+  · exact he.trans (by rw [hm])
+  · have := hsim
+    rw [hm] at this
+    exact this
+
+open DDS.GenHighSketch in
+/-- **`Lift.collapsing_sketch_contents` on regenerated code** (highest-collapsing stores) -/
+theorem collapsing_sketch_contents_regenerated_high (N : Nat) (hN : 1 ≤ N)
+    (env : MapEnv) (α mn mx : Rat) (C : Contract env α mn mx)
+    (xs : List Rat) (hx : ∀ x ∈ xs, rabs x ≤ mx)
+    (hx32 : ∀ x ∈ xs, mn < rabs x → I32 (env.index (.fin (rabs x)))) :
+    let g := runAdds (newHigh env N) (unitAdds xs)
+    g.2 = List.replicate xs.length GoErr.nil ∧
+    ∃ (s₀ : Sketch) (cp cn : Content) (dp dn : DStore),
+      Sketch.addAll env (Sketch.new (some env.id) .sparse) (xs.map (fun x => (x, 1))) = some s₀ ∧
+      s₀ = Sketch.spec (some env.id) cp cn g.1.zeroCount ∧ g.1.IndexMapping = env ∧ cp.WF ∧ cn.WF ∧
+      g.1.positiveValueStore.g = GenDense.toHigh (N : Int) dp ∧ dp.kind = .high N ∧
+      g.1.negativeValueStore.g = GenDense.toHigh (N : Int) dn ∧ dn.kind = .high N ∧
+      contentOf (.d dp) = Content.specHigh N cp ∧ contentOf (.d dn) = Content.specHigh N cn := by
+  intro g
+  obtain ⟨s, s₀, cp, cn, h1, h2, h3, _, wp, wn, _, _, ep, en, _⟩ :=
+    Lift.collapsing_sketch_contents (.high N) hN env α mn mx C xs hx hx32
+  obtain ⟨he, hsim⟩ := high_adds_eq_model N env mn C.minEq (Rat.le_of_lt C.minPos) xs s h1
+  obtain ⟨dp, hgp, hsp, hkp⟩ := hsim.pos
+  obtain ⟨dn, hgn, hsn, hkn⟩ := hsim.neg
+  simp only [toGen_pos, toGen_neg] at hsp hsn
+  refine ⟨he, s₀, cp, cn, dp, dn, h2, ?_, hsim.map, wp, wn, hgp, hkp, hgn, hkn, ?_, ?_⟩
+  · rw [h3]; congr 1; exact hsim.zero.symm
+  · rw [← hsp]; exact ep
+  · rw [← hsn]; exact en
 
 end DDS.Props.C05GenSketch
